@@ -74,6 +74,10 @@ def qapsplit():
     """
     global eqs, blocks
 
+    # the whole equation file is read again on every call: start from scratch
+    eqs = dict()
+    blocks = dict()
+
     fns = dict()
     extblocks = set()
 
